@@ -187,6 +187,62 @@ fn many_small_functions(outer: usize, inner: usize) -> (String, f64) {
     (src, 7.0 * 1e8 + outer as f64 * 1000.0 + 42.0)
 }
 
+// Deep nesting must work or be refused with an explicit limit error - never abort the process.  A stack overflow
+// cannot be caught in-process, so each case runs in a CHILD process (this test binary, the ignored test below) with an
+// 8 MiB thread stack (the default main-thread stack).
+fn deep_program(shape: &str, d: usize) -> (String, f64) {
+    match shape {
+        "parentheses" => (format!("let keep = 7; let x = {}1{}; keep * 10 + x", "(".repeat(d), ")".repeat(d)), 71.0),
+        "array_literals" => (format!("let keep = 7; let a = {}1{}; keep * 10 + 1", "[".repeat(d), "]".repeat(d)), 71.0),
+        "blocks" => (format!("let keep = 7; let q = 0; {} q = 1; {} keep * 10 + q", "{".repeat(d), "}".repeat(d)), 71.0),
+        "function_declarations" => (format!("let keep = 7; {} {} keep * 10 + 1", (0..d).map(|i| format!("function f{}() {{", i)).collect::<String>(), "}".repeat(d)), 71.0),
+        "unary_chain" => (format!("let keep = 7; let x = {}1; keep * 10 + x", "- ".repeat(d - d % 2)), 71.0),
+        "member_chain" => (format!("let keep = 7; let o: any = {{}}; o.p = o; let x = o{}; keep * 10 + (x === o ? 1 : 0)", ".p".repeat(d)), 71.0),
+        _ => (String::from("1"), 1.0),
+    }
+}
+
+#[test]
+#[ignore]
+fn verif_side_c10_deep_child() {
+    let shape = std::env::var("VERIF_SHAPE").unwrap_or_default();
+    let d: usize = std::env::var("VERIF_DEPTH").ok().and_then(|s| s.parse().ok()).unwrap_or(1);
+    let (src, want) = deep_program(&shape, d);
+    match run(&src) {
+        Outcome::Num(v) if v == want => println!("VERIF-CHILD ok"),
+        Outcome::Err(e) if e.to_lowercase().contains("too many") || e.to_lowercase().contains("limit") || e.to_lowercase().contains("deep") || e.to_lowercase().contains("nest") => println!("VERIF-CHILD refused"),
+        other => println!("VERIF-CHILD wrong {:?}", format!("{:?}", other).chars().take(160).collect::<String>()),
+    }
+}
+
+fn deep_nesting_cases(fail: &mut dyn FnMut(String)) -> usize {
+    let exe = match std::env::current_exe() { Ok(e) => e, Err(_) => return 0 };
+    let mut cases = 0;
+    for shape in ["parentheses", "array_literals", "blocks", "function_declarations", "unary_chain", "member_chain"] {
+        for d in [50usize, 1000, 20000] {
+            cases += 1;
+            let out = std::process::Command::new(&exe)
+                .args(["verif_side_c10_deep_child", "--ignored", "--nocapture", "--test-threads", "1"])
+                .env("VERIF_SHAPE", shape).env("VERIF_DEPTH", d.to_string()).env("RUST_MIN_STACK", "8388608")
+                .output();
+            match out {
+                Ok(o) => {
+                    let text = String::from_utf8_lossy(&o.stdout).to_string();
+                    if text.contains("VERIF-CHILD ok") || (d > 50 && text.contains("VERIF-CHILD refused")) {
+                        continue;
+                    }
+                    let err = String::from_utf8_lossy(&o.stderr).to_string();
+                    let sig = if err.contains("overflowed its stack") || !o.status.success() && !text.contains("VERIF-CHILD") { "process-aborted:stack-overflow" } else { "wrong-outcome" };
+                    let detail = text.lines().find(|l| l.contains("VERIF-CHILD")).unwrap_or("").to_string();
+                    fail(format!("VERIF-SIDE-FAIL obligation=side/C10/deep_nesting_{} sig={} depth={} {} (must work or be refused with an explicit limit error)", shape, sig, d, detail));
+                }
+                Err(e) => fail(format!("VERIF-SIDE-FAIL obligation=side/C10/deep_nesting_{} sig=could-not-spawn depth={} {}", shape, d, e)),
+            }
+        }
+    }
+    cases
+}
+
 #[test]
 fn verif_side_c10() {
     let seed: u64 = std::env::var("VERIF_SEED").ok().and_then(|s| s.parse().ok()).unwrap_or(0);
@@ -267,5 +323,10 @@ fn verif_side_c10() {
         }
     }
     let _ = std::panic::take_hook();
+    let mut deep_fails: Vec<String> = Vec::new();
+    cases += deep_nesting_cases(&mut |l| deep_fails.push(l));
+    for l in deep_fails.iter().take(40) {
+        println!("{}", l);
+    }
     println!("VERIF-SIDE-DONE cases={}", cases);
 }
